@@ -241,6 +241,11 @@ func sumOracles(run *gen.SumRun) []sumFail {
 		case "panic":
 			add("no-panic", "step %d Lookup(%q,%q) panicked: %s", i, st.Path, st.Vers, r.Err)
 		case "ok":
+			for _, e := range run.Events {
+				if e.Step == i && !e.Err && (e.Kind == "rr" || e.Kind == "rc") && strings.Contains(e.Name, "/lookup/") && len(e.Data) > 0 && e.Data[0] == '-' {
+					add("ok-is-authentic-record", "step %d: a lookup response with a negative record id was accepted: %q", i, sumClip(e.Data))
+				}
+			}
 			if len(r.Lines) == 0 {
 				if max[0] == 0 && max[1] == 0 {
 					add("ok-is-authentic-record", "step %d: ok with no signed non-empty tree", i)
@@ -280,6 +285,12 @@ func sumOracles(run *gen.SumRun) []sumFail {
 	}
 
 	// --- C01: writes
+	type conflict struct {
+		step  int
+		newer []byte
+		after []byte
+	}
+	var conflicts []conflict
 	cfgNow := run.Config0[latest]
 	stepCfg := map[int][]byte{} // configuration at the start of each step
 	cur := 0
@@ -334,6 +345,9 @@ func sumOracles(run *gen.SumRun) []sumFail {
 			if !ok || len(e.Data) == 0 {
 				add("config-writes-signed", "WriteConfig writes a head the harness did not sign: %q", sumClip(e.Data))
 			}
+			if e.Err {
+				conflicts = append(conflicts, conflict{e.Step, e.Data, cfgNow})
+			}
 			if !e.Err {
 				// a successful write: old is what was stored
 				oh, ook := sumNoteHead(w, e.Old)
@@ -352,6 +366,22 @@ func sumOracles(run *gen.SumRun) []sumFail {
 	for cur < len(sc.Steps) {
 		cur++
 		stepCfg[cur] = cfgNow
+	}
+
+	// --- C13: after a lost compare-and-swap the client merges what the other writer stored: a lookup
+	// that succeeds after a write conflict has a head on the same timeline as that stored head
+	for _, cf := range conflicts {
+		if cf.step < 0 || cf.step >= len(run.Results) || run.Results[cf.step].Class != "ok" {
+			continue
+		}
+		nh, ok1 := sumNoteHead(w, cf.newer)
+		ah, ok2 := sumNoteHead(w, cf.after)
+		switch {
+		case !ok2:
+			add("conflict-remerged", "step %d succeeded after a write conflict although the stored head is not a signed note: %q", cf.step, sumClip(cf.after))
+		case ok1 && !(w.Consistent(nh.n, nh.h, ah.n, ah.h) || w.Consistent(ah.n, ah.h, nh.n, nh.h)):
+			add("conflict-remerged", "step %d succeeded after a write conflict although the stored head (size %d) is not on the timeline of the client's head (size %d)", cf.step, ah.n, nh.n)
+		}
 	}
 
 	// --- C13: a validly signed head inconsistent with the stored one is never accepted
@@ -537,7 +567,7 @@ func sumDo(c *hx.Ctx, sc gen.SumScenario, b *sumBudget, wantModel bool) *gen.Sum
 			c.Count("result:ok-empty")
 		}
 	}
-	nt := fmt.Sprintf("%d/%d/%d/%d/%d/%v/%v/%v/%v", sc.Seed, sc.H, sc.NA, sc.NB, sc.K, sc.Steps, sc.Faults, sc.Cache, sc.Config)
+	nt := fmt.Sprintf("%d/%d/%d/%d/%d/%v/%v/%v/%v/%v/%v", sc.Seed, sc.H, sc.NA, sc.NB, sc.K, sc.Steps, sc.Faults, sc.Cache, sc.Config, sc.Interf, sumParKey(sc.Par))
 	if len(run.Events) > 2 {
 		c.Nontrivial(nt)
 	}
@@ -555,7 +585,7 @@ func sumDo(c *hx.Ctx, sc gen.SumScenario, b *sumBudget, wantModel bool) *gen.Sum
 }
 
 var sumOracleNames = []string{"no-panic", "ok-is-authentic-record", "cache-writes-authentic", "config-writes-signed",
-	"honest-succeeds", "honest-no-security", "config-monotone-same-side", "fork-never-accepted", "security-reports-both-heads"}
+	"honest-succeeds", "honest-no-security", "config-monotone-same-side", "fork-never-accepted", "security-reports-both-heads", "conflict-remerged"}
 
 // sumBranchCounts measures which client code paths a run exercised.
 func sumBranchCounts(c *hx.Ctx, run *gen.SumRun) {
@@ -726,7 +756,7 @@ func sumHonest(r *rand.Rand, maxN int) gen.SumScenario {
 	return sc
 }
 
-var sumLookupFaults = []string{"flip", "flip", "flip", "trunc", "extend", "dup", "swap", "swap", "stale", "stale", "head", "error", "empty", "side"}
+var sumLookupFaults = []string{"flip", "flip", "flip", "trunc", "extend", "dup", "swap", "swap", "stale", "stale", "head", "error", "empty", "side", "negid"}
 var sumTileFaults = []string{"flip", "flip", "flip", "trunc", "trunc", "extend", "dup", "swap", "swap", "stale", "error", "empty", "side"}
 
 // sumFaultFor draws a fault of the given kind for a served response.
@@ -795,8 +825,13 @@ func sumFaultFor(r *rand.Rand, sc gen.SumScenario, served []gen.SumServed, s gen
 		if sc.NB == 0 {
 			f.Kind, f.P1, f.P2 = "flip", r.Intn(n), r.Intn(8)
 		}
+	case "negid":
+		f.P1 = 1 + r.Intn(9)
+		if !isLookup {
+			f.Kind = "error"
+		}
 	case "head":
-		f.P1 = 1 + r.Intn(6)
+		f.P1 = 1 + r.Intn(7)
 		if !isLookup {
 			f.Kind = "error"
 		}
@@ -915,6 +950,29 @@ func runC01(c *hx.Ctx) {
 			}
 			sumDo(c, sc, budget, len(seenPartial)%3 == 0)
 		}
+		// (3c) the response for record 0 with a negative id (StoredHashIndex(0, id) is 0 for id <= 0)
+		{
+			sc := base.Clone()
+			sc.Note = "negid"
+			p0, v0, _ := gen.SumRecordOf(sc.Seed, 0, 0)
+			sc.Steps[0].Path, sc.Steps[0].Vers = p0, v0
+			sc.Cache.Lookups = false
+			sc.Faults = []gen.SumFault{{Path: "/lookup/" + gen.SumEscape(p0) + "@" + gen.SumEscape(v0), Occ: 0, Kind: "negid", P1: 1 + r.Intn(9)}}
+			sumDo(c, sc, budget, b%4 == 0)
+		}
+		// (3d) a client that already holds a verified head gets a response whose note is signed by a
+		// foreign key only and carries smuggled go.sum lines in its text
+		{
+			sc := base.Clone()
+			sc.Note = "smuggled"
+			sc.Config = gen.SumConfigSpec{Latest: 1, HeadN: base.Steps[0].View.HeadN}
+			for j := range sc.Steps {
+				if j == 0 || r.Intn(2) == 0 {
+					sc.Steps[j].View.HeadKind = gen.HeadSmuggled
+				}
+			}
+			sumDo(c, sc, budget, b%4 == 1)
+		}
 		// (4) cache corruption and foreign caches
 		for k := 0; k < 5; k++ {
 			sc := base.Clone()
@@ -995,4 +1053,11 @@ func replaySum(raw json.RawMessage) (bool, string) {
 		return false, fails[0].Oracle + ": " + fails[0].Msg
 	}
 	return true, fmt.Sprintf("results %v", sumClasses(run))
+}
+
+func sumParKey(p *gen.SumPar) string {
+	if p == nil {
+		return ""
+	}
+	return fmt.Sprintf("%d/%s/%s/%d/%v/%v", p.Step, p.Kind, p.Path, p.Count, p.More, p.Release)
 }
